@@ -177,6 +177,9 @@ trait Pay:
     fn multiplicative(rng: &mut Rng, n: usize) -> Vec<Self>;
     /// a fresh value that may be added to / subtracted from `proto` (same unit)
     fn like(rng: &mut Rng, proto: Self) -> Self;
+    /// a value from the pool that fast paths / special cases key on (zeros, ones, extremes, non-finite),
+    /// for constructor parameters that are only stored and handed back (NoneToValue, ConstantGetter)
+    fn special(rng: &mut Rng, proto: Self) -> Self;
     /// ExponentStream exists for f32 only
     fn exponent(_base: &Src<Self>, _exponent: &Src<Self>) -> Option<Box<dyn Getter<Self, E>>> {
         None
@@ -188,6 +191,33 @@ trait Pay:
     fn reference_pow(_base: Self, _exponent: Self) -> Option<Self> {
         None
     }
+}
+fn fspecial(rng: &mut Rng) -> f32 {
+    *rng.pick(&[
+        0.0f32, -0.0, 1.0, -1.0, 2.0, 0.5, f32::MAX, f32::MIN, f32::MIN_POSITIVE, f32::EPSILON, 1e-45, f32::INFINITY,
+        f32::NEG_INFINITY, f32::NAN,
+    ])
+}
+/// the expiry-limit pool: extremes and round values next to the magnitude strata
+/// 0: 0, 1: small positive, 2: large positive (<= 2^59), 3: negative, 4: exactly 1,
+/// 5: i64::MAX ("never expires"), 6: i64::MAX - 1, 7: i64::MIN, 8: i64::MIN + 1
+const NLIM: u8 = 9;
+fn limit_of(rng: &mut Rng, lim: u8) -> i64 {
+    match lim {
+        0 => 0,
+        1 => rng.range_i64(2, 1000),
+        2 => rng.range_i64(1_000_000_000, 1i64 << 59),
+        3 => -rng.range_i64(1, 1i64 << 40),
+        4 => 1,
+        5 => i64::MAX,
+        6 => i64::MAX - 1,
+        7 => i64::MIN,
+        _ => i64::MIN + 1,
+    }
+}
+/// documented Expirer rule on integers: absent iff now - t > limit
+fn expired(now: i64, t: i64, limit: i64) -> bool {
+    (now as i128 - t as i128) > limit as i128
 }
 fn fval(rng: &mut Rng) -> f32 {
     if rng.chance(0.4) {
@@ -226,6 +256,9 @@ impl Pay for f32 {
     fn like(rng: &mut Rng, _proto: f32) -> f32 {
         fval(rng)
     }
+    fn special(rng: &mut Rng, _proto: f32) -> f32 {
+        fspecial(rng)
+    }
     fn exponent(base: &Src<f32>, exponent: &Src<f32>) -> Option<Box<dyn Getter<f32, E>>> {
         Some(Box::new(ExponentStream::new(base.dynref(), exponent.typed())))
     }
@@ -255,6 +288,9 @@ impl Pay for Quantity {
     }
     fn like(rng: &mut Rng, proto: Quantity) -> Quantity {
         Quantity::new(fval(rng), proto.unit)
+    }
+    fn special(rng: &mut Rng, proto: Quantity) -> Quantity {
+        Quantity::new(fspecial(rng), proto.unit)
     }
 }
 /// A payload whose `+` and `*` are associative but NOT commutative, so that "combined in input
@@ -331,6 +367,9 @@ impl Pay for M2 {
     }
     fn like(rng: &mut Rng, _proto: M2) -> M2 {
         m2val(rng)
+    }
+    fn special(rng: &mut Rng, _proto: M2) -> M2 {
+        *rng.pick(&[M2([0, 0, 0, 0]), M2([1, 0, 0, 1]), M2([i64::MAX, i64::MIN, -1, 1]), M2([i64::MIN, i64::MIN, i64::MIN, i64::MIN])])
     }
 }
 /// tally the folds whose result depends on the operand order (only meaningful for M2)
@@ -973,7 +1012,11 @@ fn none_to_value_case<T: Pay>(ck: &mut Ck, code: u8, tgc: u8, rel: u8, rng: &mut
         1 => (st2[0], st2[0]),
         _ => (st2[0], st2[1]),
     };
-    let vals = T::additive(rng, 2);
+    let mut vals = T::additive(rng, 2);
+    if rng.chance(0.5) {
+        vals[1] = T::special(rng, vals[0]);
+        ck.rep.tally("none_to_value_special_parameter");
+    }
     let inp: Out<T> = mk(code, t, vals[0]);
     let s = Src::with(inp.clone());
     let (tg, tgo) = tg_of(tgc, now);
@@ -1017,24 +1060,33 @@ fn expirer_case<T: Pay>(ck: &mut Ck, code: u8, tgc: u8, rel: u8, lim: u8, rng: &
         4 => rng.sign() as i64 * ((1i64 << 59) - rng.range_i64(0, 1000)),
         _ => rng.range_i64(-(1i64 << 40), 1i64 << 40),
     };
-    let limit = match lim {
-        0 => 0,
-        1 => rng.range_i64(1, 1000),
-        2 => rng.range_i64(1_000_000_000, 1i64 << 59),
-        _ => -rng.range_i64(1, 1i64 << 40),
-    };
+    let limit = limit_of(rng, lim);
     let g = match rng.below(3) {
         0 => 1,
         1 => rng.range_i64(1, 1000),
         _ => rng.range_i64(1, 1i64 << 58),
     };
     let d = match rel {
+        _ if lim >= 5 => 0, // unused: see below
         0 => -g,
         1 => 0,
         2 => g,
         _ => -limit - limit.abs() - g, // age = -(|limit| + g)
     };
-    let now = t + limit + d; // |now| <= 2^59 + 2^59 + 2^58 < 2^61; now - t = limit + d exactly
+    // lim < 5: ages exactly at / around the limit. |now| <= 2^59 + 2^59 + 2^58 < 2^61; now - t = limit + d.
+    // lim >= 5 (limit at an i64 extreme): the boundary is unreachable without overflowing the crate's own
+    // `now - t`, so the clock is simply placed before / at / after / far before the datum (|now - t| < 2^61)
+    // and the expectation comes from the documented rule evaluated on integers.
+    let now = if lim < 5 {
+        t + limit + d
+    } else {
+        match rel {
+            0 => t - g,
+            1 => t,
+            2 => t + g,
+            _ => t - (1i64 << 59) - g,
+        }
+    };
     let v = T::additive(rng, 1)[0];
     let inp: Out<T> = mk(code, t, v);
     let s = Src::with(inp.clone());
@@ -1053,7 +1105,8 @@ fn expirer_case<T: Pay>(ck: &mut Ck, code: u8, tgc: u8, rel: u8, lim: u8, rng: &
         (Ok(Some(_)), Err(e)) => ok.push(Err(*e)),
         (Ok(Some(_)), Ok(_)) => {
             // absent iff now - t > limit
-            if rel == 2 {
+            assert!(lim >= 5 || expired(now, t, limit) == (rel == 2), "monitor self-check: boundary construction");
+            if expired(now, t, limit) {
                 ok.push(Ok(None))
             } else {
                 ok.push(inp.clone())
@@ -1061,9 +1114,16 @@ fn expirer_case<T: Pay>(ck: &mut Ck, code: u8, tgc: u8, rel: u8, lim: u8, rng: &
         }
     }
     ck.rep.distinct(("Expirer", T::NAME, code, tgc, rel, lim));
-    let desc = || format!("Expirer<{}> input {:?} time getter {:?} max_time_delta {} (age - limit = {})", T::NAME, inp, tgo, limit, d);
+    let desc = || format!("Expirer<{}> input {:?} time getter {:?} max_time_delta {} (age = now - stamp = {})", T::NAME, inp, tgo, limit, now as i128 - t as i128);
     let hit = ck.check("Expirer", &obs, &ok, T::veq, &desc);
-    if hit.is_some() && code == PRES && tgc == 0 {
+    if hit.is_some() && code == PRES && lim >= 5 {
+        ck.rep.tally(&format!("expirer_extreme_limit_{}:{}", lim, match (&tgo, expired(now, t, limit)) {
+            (Err(_), _) => "clock_error_returned",
+            (Ok(_), true) => "expired",
+            (Ok(_), false) => "kept",
+        }));
+    }
+    if hit.is_some() && code == PRES && tgc == 0 && lim < 5 {
         ck.rep.tally(match rel {
             0 => "expirer_kept_younger_than_limit",
             1 => "expirer_kept_exactly_at_limit",
@@ -1461,13 +1521,12 @@ fn longlived_case<T: Pay>(ck: &mut Ck, kind: LK, rng: &mut Rng) {
         bounded: kind == LK::Expirer,
     };
     let ex = Extra {
-        none_value: ll_val(rng, &g),
-        constant: ll_val(rng, &g),
-        limit: match rng.below(4) {
-            0 => 0,
-            1 => rng.range_i64(1, 1000),
-            2 => rng.range_i64(1_000_000_000, B59),
-            _ => -rng.range_i64(1, 1i64 << 40),
+        none_value: if rng.chance(0.3) { T::special(rng, g.proto) } else { ll_val(rng, &g) },
+        constant: if rng.chance(0.3) { T::special(rng, g.proto) } else { ll_val(rng, &g) },
+        // the whole limit pool, extremes included: the long-lived Expirer's stamps stay within 2^59
+        limit: {
+            let lim = rng.below(NLIM as u64) as u8;
+            limit_of(rng, lim)
         },
     };
     // initial assignment: everything present, stamps from a few distinct values (ties likely)
@@ -1600,6 +1659,9 @@ enum AK {
     Or,
     IfBool,
     IfElseBool,
+    /// the SAME object is the data input and the clock
+    ExpirerClock,
+    NoneToValueClock,
 }
 impl AK {
     fn name(self) -> &'static str {
@@ -1616,7 +1678,12 @@ impl AK {
             AK::And => "AndStream",
             AK::Or => "OrStream",
             AK::IfBool => "IfStream",
+            AK::ExpirerClock => "Expirer",
+            AK::NoneToValueClock => "NoneToValue",
         }
+    }
+    fn is_clock(self) -> bool {
+        matches!(self, AK::ExpirerClock | AK::NoneToValueClock)
     }
     fn is_bool(self) -> bool {
         matches!(self, AK::And | AK::Or | AK::IfBool | AK::IfElseBool)
@@ -1636,6 +1703,8 @@ impl AK {
             AK::IfElse => "IfElseStream with both branches aliased".to_string(),
             AK::IfBool => "IfStream<bool> with condition and input aliased".to_string(),
             AK::IfElseBool => "IfElseStream<bool> with condition and both branches aliased".to_string(),
+            AK::ExpirerClock => "Expirer whose data input and time getter are one object".to_string(),
+            AK::NoneToValueClock => "NoneToValue whose data input and time getter are one object".to_string(),
             _ => format!("{} with both inputs aliased", self.name()),
         }
     }
@@ -1707,7 +1776,118 @@ fn a_judge<T: Debug>(what: &str, obs: &Obs<T>, ok: &[Out<T>], veq: fn(&T, &T) ->
         }
     }
 }
+/// one object that is both a data getter and a clock
+struct Both<T: Clone> {
+    out: Out<T>,
+    now: TimeOutput<E>,
+}
+impl<T: Clone> Getter<T, E> for Both<T> {
+    fn get(&self) -> Out<T> {
+        self.out.clone()
+    }
+}
+impl<T: Clone> TimeGetter<E> for Both<T> {
+    fn get(&self) -> TimeOutput<E> {
+        self.now
+    }
+}
+impl<T: Clone> Updatable<E> for Both<T> {
+    fn update(&mut self) -> NothingOrError<E> {
+        Ok(())
+    }
+}
+/// two References (data face, clock face) over the SAME object
+fn alias_both<T: Clone + 'static>(backing: usize, b: Both<T>) -> (Reference<dyn Getter<T, E>>, Reference<dyn TimeGetter<E>>) {
+    match backing {
+        0 => {
+            let a = rc(b);
+            let g: std::rc::Rc<std::cell::RefCell<dyn Getter<T, E>>> = a.clone();
+            let c: std::rc::Rc<std::cell::RefCell<dyn TimeGetter<E>>> = a;
+            (Reference::from_rc_ref_cell(g), Reference::from_rc_ref_cell(c))
+        }
+        1 => {
+            let p: *mut Both<T> = Box::into_raw(Box::new(b));
+            unsafe { (Reference::from_ptr(p as *mut dyn Getter<T, E>), Reference::from_ptr(p as *mut dyn TimeGetter<E>)) }
+        }
+        2 => {
+            let a = Arc::new(Mutex::new(b));
+            let g: Arc<Mutex<dyn Getter<T, E>>> = a.clone();
+            let c: Arc<Mutex<dyn TimeGetter<E>>> = a;
+            (Reference::from_arc_mutex(g), Reference::from_arc_mutex(c))
+        }
+        3 => {
+            let a = Arc::new(RwLock::new(b));
+            let g: Arc<RwLock<dyn Getter<T, E>>> = a.clone();
+            let c: Arc<RwLock<dyn TimeGetter<E>>> = a;
+            (Reference::from_arc_rw_lock(g), Reference::from_arc_rw_lock(c))
+        }
+        4 => {
+            let p: *mut Mutex<Both<T>> = Box::into_raw(Box::new(Mutex::new(b)));
+            unsafe { (Reference::from_ptr_mutex(p as *const Mutex<dyn Getter<T, E>>), Reference::from_ptr_mutex(p as *const Mutex<dyn TimeGetter<E>>)) }
+        }
+        _ => {
+            let p: *mut RwLock<Both<T>> = Box::into_raw(Box::new(RwLock::new(b)));
+            unsafe { (Reference::from_ptr_rw_lock(p as *const RwLock<dyn Getter<T, E>>), Reference::from_ptr_rw_lock(p as *const RwLock<dyn TimeGetter<E>>)) }
+        }
+    }
+}
+/// cell code of the getter/clock cases: data outcome (0..AV) + AV * clock outcome (0 = Ok, 1..=3 = the errors)
+fn alias_clock<T: Pay>(kind: AK, backing: usize, cell: u8, rng: &mut Rng) -> AMsg {
+    let (code, tgc) = (cell % AV, cell / AV);
+    // the Expirer subtracts the two stamps: both stay within 2^59
+    let t = ll_stamp(rng, true);
+    let now = match rng.below(4) {
+        0 => t,
+        1 => t.saturating_add(gap(rng)).min(B59),
+        2 => t.saturating_sub(gap(rng)).max(-B59),
+        _ => ll_stamp(rng, true),
+    };
+    let v = T::additive(rng, 1)[0];
+    let out: Out<T> = mk(code, t, v);
+    let tgo: TimeOutput<E> = if tgc == 0 { Ok(Time(now)) } else { Err(err_code(tgc - 1)) };
+    let (g, c) = alias_both(backing, Both { out: out.clone(), now: tgo });
+    match kind {
+        AK::ExpirerClock => {
+            let lim = rng.below(NLIM as u64) as u8;
+            let limit = limit_of(rng, lim);
+            let what = format!("{} <{}> through {}: as a getter it returns {:?}, as a clock {:?}; max_time_delta {}", kind.describe(), T::NAME, BACKINGS[backing], out, tgo, limit);
+            let obs = get3(&Expirer::new(g, c, Time(limit)));
+            let mut ok: Vec<Out<T>> = Vec::new();
+            match (&out, &tgo) {
+                (Err(e), _) => ok.push(Err(*e)),
+                (Ok(None), Ok(_)) => ok.push(Ok(None)),
+                (Ok(None), Err(e)) => {
+                    ok.push(Ok(None));
+                    ok.push(Err(*e));
+                }
+                (Ok(Some(_)), Err(e)) => ok.push(Err(*e)),
+                (Ok(Some(_)), Ok(_)) => ok.push(if expired(now, t, limit) { Ok(None) } else { out.clone() }),
+            }
+            a_judge(&what, &obs, &ok, T::veq)
+        }
+        _ => {
+            let nv = if rng.chance(0.5) { T::special(rng, v) } else { T::like(rng, v) };
+            let what = format!("{} <{}> through {}: as a getter it returns {:?}, as a clock {:?}; none_value {:?}", kind.describe(), T::NAME, BACKINGS[backing], out, tgo, nv);
+            let obs = get3(&NoneToValue::new(g, c, nv));
+            let mut ok: Vec<Out<T>> = Vec::new();
+            match (&out, &tgo) {
+                (Err(e), _) => ok.push(Err(*e)),
+                (Ok(Some(_)), Ok(_)) => ok.push(out.clone()),
+                (Ok(Some(_)), Err(e)) => {
+                    ok.push(out.clone());
+                    ok.push(Err(*e));
+                }
+                (Ok(None), Ok(now)) => ok.push(Ok(Some(Datum::new(*now, nv)))),
+                (Ok(None), Err(e)) => ok.push(Err(*e)),
+            }
+            a_judge(&what, &obs, &ok, T::veq)
+        }
+    }
+}
 fn alias_val<T: Pay>(kind: AK, backing: usize, code: u8, rng: &mut Rng) -> AMsg {
+    if kind.is_clock() {
+        return alias_clock::<T>(kind, backing, code, rng);
+    }
     let t = distinct_stamps(rng, 1)[0];
     let v = T::additive(rng, 1)[0];
     let out: Out<T> = mk(code, t, v);
@@ -1784,7 +1964,7 @@ fn alias_bool(kind: AK, backing: usize, code: u8, rng: &mut Rng) -> AMsg {
 fn alias_plan(kind: AK) -> Vec<(&'static str, u8)> {
     let mut v = Vec::new();
     for p in kind.payloads() {
-        for code in 0..if kind.is_bool() { AB } else { AV } {
+        for code in 0..if kind.is_bool() { AB } else if kind.is_clock() { AV * 4 } else { AV } {
             v.push((*p, code));
         }
     }
@@ -1869,7 +2049,7 @@ fn alias_collect(rep: &mut Report, p: APending, known_hung: bool) -> bool {
             }
             Err(mpsc::RecvTimeoutError::Timeout) => {
                 rep.violation(&format!("C02/aliased-inputs-hang/{}/{}", stream, back), "aliased", p.case,
-                    format!("{} <{}> through {}, shared input outcome code {} (0..2 = Err(FromNone/Other(1)/Other(2)), 3 = None, 4.. = Some): get() did not return within {:?} on an otherwise idle helper thread (the same object is reachable through both inputs: a guard of one input still held while the other is borrowed never lets the second borrow succeed)",
+                    format!("{} <{}> through {}, shared input outcome code {} (0..2 = Err(FromNone/Other(1)/Other(2)), 3 = None, 4.. = Some; for the getter/clock cases: data outcome + 5 x clock outcome, clock 0 = Ok, 1..3 = the errors): get() did not return within {:?} on an otherwise idle helper thread (the same object is reachable through both inputs: a guard of one input still held while the other is borrowed never lets the second borrow succeed)",
                         p.kind.describe(), pay, back, code, p.spawned.elapsed()));
                 rep.tally_n("aliased_cells_not_run_after_a_hang", (p.plan.len() - i - 1) as u64);
                 return true;
@@ -2088,7 +2268,7 @@ fn main() {
                 for code in 0..AV {
                     for tgc in 0..4u8 {
                         for rel in 0..4u8 {
-                            for lim in 0..4u8 {
+                            for lim in 0..NLIM {
                                 let case = idx;
                                 idx += 1;
                                 if !args.mine("expirer", case) {
@@ -2120,11 +2300,12 @@ fn main() {
                     let mut ck = Ck { rep: &mut rep, sub: "constant", case };
                     match p {
                         0 => {
-                            let v = fval(&mut rng);
+                            let v = if rng.chance(0.5) { fspecial(&mut rng) } else { fval(&mut rng) };
                             constant_case::<f32>(&mut ck, "f32", v, f32::veq, tgc, &mut rng)
                         }
                         1 => {
                             let v = Quantity::additive(&mut rng, 1)[0];
+                            let v = if rng.chance(0.5) { Quantity::special(&mut rng, v) } else { v };
                             constant_case::<Quantity>(&mut ck, "Quantity", v, Quantity::veq, tgc, &mut rng)
                         }
                         _ => {
@@ -2139,7 +2320,7 @@ fn main() {
             let mut ck = Ck { rep: &mut rep, sub: "none_getter", case: 0 };
             none_getter_case(&mut ck);
         }
-        rep.exhaustive("NoneToError x 5 inputs; NoneToValue x 5 inputs x 4 clock states x clock-vs-input order; Expirer x 5 inputs x 4 clock states x {age <,=,> limit; datum newer than the clock by more than |limit|} x 4 limit strata; ConstantGetter x 4 clock states; NoneGetter; each x {f32,Quantity}");
+        rep.exhaustive("NoneToError x 5 inputs; NoneToValue x 5 inputs x 4 clock states x clock-vs-input order; Expirer x 5 inputs x 4 clock states x {age <,=,> limit; datum newer than the clock by more than |limit|} x 9 limits {0, small, large, negative, 1, i64::MAX, i64::MAX-1, i64::MIN, i64::MIN+1}; ConstantGetter x 4 clock states; NoneGetter; each x {f32,Quantity}");
     }
     // ---- 6. long-lived instances versus fresh ones over single-aspect changes
     {
@@ -2189,7 +2370,7 @@ fn main() {
         for n in 2..=5 {
             kinds.extend([AK::Sum(n), AK::Product(n), AK::Latest(n)]);
         }
-        kinds.extend([AK::Sum2, AK::Product2, AK::Difference, AK::Quotient, AK::Exponent, AK::IfElse, AK::And, AK::Or, AK::IfBool, AK::IfElseBool]);
+        kinds.extend([AK::Sum2, AK::Product2, AK::Difference, AK::Quotient, AK::Exponent, AK::IfElse, AK::And, AK::Or, AK::IfBool, AK::IfElseBool, AK::ExpirerClock, AK::NoneToValueClock]);
         let rounds = args.pick(6, 48);
         let mut hung: std::collections::HashSet<(AK, usize)> = std::collections::HashSet::new();
         let mut idx = 0u64;
@@ -2214,11 +2395,11 @@ fn main() {
                 hung.insert(key);
             }
         }
-        rep.exhaustive("aliased inputs: {SumStream, ProductStream, Latest} arity 2..=5 (all inputs one object), Sum2, Product2, Difference, Quotient, Exponent, IfElse (both branches), And, Or, IfStream<bool>, IfElseStream<bool> x {Rc<RefCell>, raw pointer, Arc<Mutex>, Arc<RwLock>, *Mutex, *RwLock} x every outcome of the shared input x {f32, Quantity, M2 | bool}");
+        rep.exhaustive("aliased inputs: {SumStream, ProductStream, Latest} arity 2..=5 (all inputs one object), Sum2, Product2, Difference, Quotient, Exponent, IfElse (both branches), And, Or, IfStream<bool>, IfElseStream<bool> x {Rc<RefCell>, raw pointer, Arc<Mutex>, Arc<RwLock>, *Mutex, *RwLock} x every outcome of the shared input x {f32, Quantity, M2 | bool}; Expirer and NoneToValue with ONE object as data input and clock x the same six backings x 5 data outcomes x 4 clock outcomes (Expirer limit from the 9-value pool)");
         for b in BACKINGS {
             rep.floor(&format!("aliased_ok:{}", b), 200);
         }
-        for s in ["SumStream", "ProductStream", "Latest", "Sum2", "Product2", "DifferenceStream", "QuotientStream", "ExponentStream", "IfElseStream", "AndStream", "OrStream", "IfStream"] {
+        for s in ["SumStream", "ProductStream", "Latest", "Sum2", "Product2", "DifferenceStream", "QuotientStream", "ExponentStream", "IfElseStream", "AndStream", "OrStream", "IfStream", "Expirer", "NoneToValue"] {
             rep.floor(&format!("aliased_ok_stream:{}", s), 60);
         }
     }
@@ -2246,6 +2427,11 @@ fn main() {
     rep.floor("expirer_expired", 20);
     rep.floor("expirer_kept_younger_than_limit", 20);
     rep.floor("expirer_kept_datum_newer_than_clock_by_more_than_limit", 20);
+    for (lim, outcome) in [(5, "kept"), (6, "kept"), (7, "expired"), (8, "expired")] {
+        rep.floor(&format!("expirer_extreme_limit_{}:{}", lim, outcome), 20);
+        rep.floor(&format!("expirer_extreme_limit_{}:clock_error_returned", lim), 20);
+    }
+    rep.floor("none_to_value_special_parameter", 200);
     rep.floor("order_sensitive:SumStream", 500);
     rep.floor("order_sensitive:ProductStream", 500);
     rep.floor("order_sensitive:Sum2", 50);
